@@ -162,6 +162,22 @@ theorem addCands_abs (P : Params) (cb : Nat → CbRet) (fast : Bool) (b b' : Blo
                 cases c; cases c'; simp_all
             exact ih ks' _ _ w h3 hrest'
 
+/-- without chained strings the unconfirmed lists are never written -/
+theorem addCands_unconfirmed_nochain (P : Params) (cb : Nat → CbRet) (fast : Bool) (b : Block) (ks : List Cand) (c : Core) (w : World)
+    (hnc : ∀ s, P.chain s = none) : (addCands P cb fast b ks c w).1.unconfirmed = c.unconfirmed := by
+  induction ks generalizing c w with
+  | nil => rfl
+  | cons k ks ih =>
+    simp only [addCands, hnc]
+    repeat' split
+    all_goals first
+      | exact ih _ _
+      | rfl
+      | (rw [ih]; done)
+
+theorem clear_unconfirmed_id (c : Core) (h : c.unconfirmed = []) : ({ c with unconfirmed := [] } : Core) = c := by
+  cases c; simp_all
+
 /-- candidates of one block can be fed in two portions -/
 theorem addCands_append (P : Params) (cb : Nat → CbRet) (fast : Bool) (b : Block) (ks1 ks2 : List Cand) (c : Core) (w : World) :
     addCands P cb fast b (ks1 ++ ks2) c w =
@@ -197,7 +213,7 @@ theorem addCands_append (P : Params) (cb : Nat → CbRet) (fast : Bool) (b : Blo
     position is split into base + offset. -/
 theorem collect_partition (P : Params) (cb : Nat → CbRet) (fast : Bool) (parts : List (Block × List Cand))
     (whole : Block) (ksW : List Cand) (c c' : Core) (w : World)
-    (hnc : ∀ s, P.chain s = none)
+    (hnc : ∀ s, P.chain s = none) (hu : c.unconfirmed = [])
     (h : Core.AbsEq c c') (hk : absCands whole ksW = parts.flatMap fun p => absCands p.1 p.2) :
     Core.AbsEq (collect P cb fast parts c w).1 (addCands P cb fast whole ksW c' w).1 ∧
     (collect P cb fast parts c w).2 = (addCands P cb fast whole ksW c' w).2 := by
@@ -212,8 +228,10 @@ theorem collect_partition (P : Params) (cb : Nat → CbRet) (fast : Bool) (parts
     obtain ⟨k1, k2, rfl, h1, h2⟩ := List.map_eq_append_iff.mp hk
     have ha := addCands_abs P cb fast b whole ks k1 c c' w hnc h (by simpa [absCands] using h1.symm)
     rw [addCands_append]
-    simp only [collect]
+    simp only [collect, clear_unconfirmed_id c hu]
+    have huA : (addCands P cb fast b ks c w).1.unconfirmed = [] := (addCands_unconfirmed_nochain P cb fast b ks c w hnc).trans hu
     rcases hA : addCands P cb fast b ks c w with ⟨cA, wA, msA, eA⟩
+    rw [hA] at huA
     rcases hB : addCands P cb fast whole k1 c' w with ⟨cB, wB, msB, eB⟩
     rw [hA, hB] at ha
     obtain ⟨hab, heq⟩ := ha
@@ -222,7 +240,7 @@ theorem collect_partition (P : Params) (cb : Nat → CbRet) (fast : Bool) (parts
     cases eA with
     | success =>
       simp only []
-      have := ih k2 cA cB wA hab (by simpa [absCands] using h2)
+      have := ih k2 cA cB wA huA hab (by simpa [absCands] using h2)
       refine ⟨this.1, ?_⟩
       have e2 := this.2
       simp only [Prod.mk.injEq]
@@ -238,10 +256,9 @@ def blockCands (P : Params) (b : Block) : List Cand := match b.data with | some 
 
 theorem scanBlock_plain (P : Params) (cb : Nat → CbRet) (set : Settings) (b : Block) (c : Core) (w : World)
     (ht : set.timeout = 0) (hb : PlainBlock P set b) :
-    scanBlock P cb set b c w = addCands P cb set.fastMode b (blockCands P b) c w := by
+    scanBlock P cb set b c w = addCands P cb set.fastMode b (blockCands P b) { c with unconfirmed := [] } w := by
   obtain ⟨d, hd, he, hep⟩ := hb
-  have hto : timedOut set c w = false := by simp [timedOut, ht]
-  have hto' : ∀ c', timedOut set c' w = false := by intro c'; simp [timedOut, ht]
+  have hto : ∀ c', timedOut set c' w = false := by intro c'; simp [timedOut, ht]
   have hc : (if c.entryPoint.isNone then ({ c with entryPoint := none } : Core) else c) = c := by
     split
     · rename_i hn
@@ -263,7 +280,7 @@ theorem blockLoop_collect (P : Params) (cb : Nat → CbRet) (set : Settings) (bl
     have hs : stepOf ([] : List Act) = .go .ok [] := rfl
     have hsb := scanBlock_plain P cb set b c w ht (hb b (by simp))
     simp only [List.map_cons, collect]
-    rcases hA : addCands P cb set.fastMode b (blockCands P b) c w with ⟨c1, w1, ms1, e⟩
+    rcases hA : addCands P cb set.fastMode b (blockCands P b) { c with unconfirmed := [] } w with ⟨c1, w1, ms1, e⟩
     have hsb' : scanBlock P cb set b c (tick w .ok) = (c1, w1, ms1, e) := by
       have : tick w .ok = w := rfl
       rw [this, hsb, hA]
